@@ -21,3 +21,27 @@ chk("C14", "model_checking",
     "SourceOffset and source consumption compared.",
     "Exhaustive within: <= 3 sections over 7 (12 thorough) blocks, 3 root lists, 4 containers, all choice strings. " + TB,
     "TLA+ state machine of BlockReader + TLC behaviours replayed on the real reader", "DESIGN.md §3 C14")
+chk("C02", "fault_enumeration",
+    "Every proper prefix and every data/digest byte corruption of every TLC-enumerated archive is run through every verifying/scanning reader; TLC validates each recorded "
+    "observation against the P-layer relation ReaderObs!Allowed (prefix of intact blocks, error unless the cut is exactly on a section boundary).",
+    "Exhaustive over cut offsets and byte positions for archives of <= 2 (3) sections; random multi-edit inputs for the 'any byte string' clause. " + TB,
+    "recorded observations of the real readers validated by TLC against a TLA+ outcome relation", "DESIGN.md §3 C02")
+chk("C03", "model_checking",
+    "ArchiveCases.tla gives, for every bounded archive, the exact offset set every index kind must report for 13 probe CIDs; all index generation/loading entry points over "
+    "three source kinds and the option matrix are compared with it and with the bytes at each offset.",
+    "Exhaustive within: <= 3 sections, two block alphabets, 4 root lists, 7 containers. " + TB,
+    "TLA+ operators as oracle, TLC-enumerated archives replayed into index generation", "DESIGN.md §3 C03")
+chk("C07", "model_checking",
+    "ArchiveOps.tla defines read-only answers as functions of the sequential scan; every bounded archive x option set x front-end (NewReadOnly, OpenReadOnly, OpenReadable, supplied index) is queried "
+    "for 13 probe CIDs and compared, including the AllKeysChan sequence and Roots.",
+    "Exhaustive within the same archive bounds as C03. " + TB,
+    "TLA+ scan-derived answers vs the real read-only stores", "DESIGN.md §3 C07")
+chk("C13", "model_checking",
+    "ArchiveOps!Stats is compared field by field with Reader.Inspect on every bounded archive; Inspect's success is compared with a verifying scan on valid archives, on every truncation/corruption "
+    "of the C02 set and on index-codec damage.",
+    "Exhaustive within the archive bounds; corruption part enumerated as in C02. " + TB,
+    "TLA+ Stats operator as oracle + iff-with-scan on enumerated corruptions", "DESIGN.md §3 C13")
+chk("C01", "model_checking",
+    "Every bounded archive is read by every sequential reader and compared with the specification's scan; every store writer's payload (all Store.tla histories) is compared byte-for-byte with the reference encoding.",
+    "Exhaustive within the archive and store bounds. " + TB,
+    "TLA+ archive/scan operators + replay into all readers and writers", "DESIGN.md §3 C01")
